@@ -132,6 +132,9 @@ func (H) Generate(prop, tier string, seed uint64) *simkit.Plan {
 	p.SetKnob("wrap", int64(r.Pick(3, 1)))
 	p.SetKnob("hidden", int64(r.Intn(2)))
 	p.SetKnob("local", int64(r.Pick(4, 1)))
+	// the add asked for with mode=direct: the adder pins recursively all the same,
+	// which has to show in the depth of the pin and not only in its mode
+	p.SetKnob("direct", int64(r.Pick(4, 1)))
 	npeers := r.Range(1, 4)
 	p.SetKnob("peers", int64(npeers))
 	fp := [][2]int{{-1, -1}, {1, 1}, {1, 2}, {2, 3}, {3, 3}, {0, 0}}[r.Intn(6)]
@@ -478,13 +481,18 @@ func (H) Execute(t *testing.T, plan *simkit.Plan, run *simkit.Run) {
 	}
 	params.RawLeaves = plan.Knob("rawleaves", 0) == 1
 	params.CidVersion = int(plan.Knob("cidv", 0))
-	if params.CidVersion == 1 {
-		params.RawLeaves = true // go-ipfs forces raw leaves with CIDv1
-	}
+	// (raw leaves are only the default with CIDv1: an explicit raw-leaves=false is
+	// a request like any other, and the reference importer below is given the same)
 	params.HashFun = []string{"sha2-256", "sha2-512", "blake2b-256"}[plan.Knob("hash", 0)]
 	if params.HashFun != "sha2-256" {
 		params.CidVersion = 1
-		params.RawLeaves = true
+	}
+	if params.CidVersion == 1 && !params.RawLeaves {
+		run.Probe("cidv1_without_raw_leaves")
+	}
+	if plan.Knob("direct", 0) == 1 {
+		params.Mode = api.PinModeDirect
+		run.Probe("add_asked_in_direct_mode")
 	}
 	params.Wrap = plan.Knob("wrap", 0) == 1
 	params.Hidden = plan.Knob("hidden", 0) == 1
@@ -688,8 +696,8 @@ func (w *world) judge(params *api.AddParams, tree *FileSpec, root cid.Cid, err e
 		if !p.Cid.Equals(root) || p.Type != api.DataType {
 			run.Violate("C13/wrong_pins", "single", "the pin is %s type %d, the root is %s", p.Cid, p.Type, root)
 		}
-		if p.Name != params.Name || p.ReplicationFactorMin != params.ReplicationFactorMin || p.ReplicationFactorMax != params.ReplicationFactorMax || p.Metadata["k"] != "v" || p.Mode != api.PinModeRecursive {
-			run.Violate("C13/pin_options_differ", "", "root pinned with name=%q rf=%d/%d meta=%v mode=%d; requested name=%q rf=%d/%d", p.Name, p.ReplicationFactorMin, p.ReplicationFactorMax, p.Metadata, p.Mode, params.Name, params.ReplicationFactorMin, params.ReplicationFactorMax)
+		if p.Name != params.Name || p.ReplicationFactorMin != params.ReplicationFactorMin || p.ReplicationFactorMax != params.ReplicationFactorMax || p.Metadata["k"] != "v" || p.Mode != api.PinModeRecursive || p.MaxDepth != -1 {
+			run.Violate("C13/pin_options_differ", "", "root pinned with name=%q rf=%d/%d meta=%v mode=%d max_depth=%d (added content is pinned recursively, whole depth); requested name=%q rf=%d/%d", p.Name, p.ReplicationFactorMin, p.ReplicationFactorMax, p.Metadata, p.Mode, p.MaxDepth, params.Name, params.ReplicationFactorMin, params.ReplicationFactorMax)
 		}
 		// (with a negative factor adder.Pin clears the allocations: pinned everywhere)
 		if len(w.allocs) >= 1 && params.ReplicationFactorMin >= 0 {
